@@ -74,14 +74,24 @@ def run(chk, tier):
             continue
         if not (-2 ** 63 <= mn and mx < 2 ** 64 and mx >= -2 ** 63):
             continue
+        # the same pair of values as the library's own call sites hand them over: Python ints, NumPy integer scalars
+        # (numpy.max of a typed array), and floats (numpy.max of an array that mixes values above and below 2^63 is a
+        # float64) whenever the float IS the integer
         variants = [(mx, mn)]
-        for args in variants:
+        if -2 ** 63 <= mx < 2 ** 63:
+            variants.append((numpy.int64(mx), numpy.int64(mn)))
+        if 0 <= mx and mn == 0:
+            variants.append((numpy.uint64(mx), 0))
+        if int(float(mx)) == mx and int(float(mn)) == mn:
+            variants.append((float(mx), mn))
+            variants.append((numpy.float64(mx), float(mn)))
+        for amx, amn in variants:
             tid += 1
             try:
                 if mn == 0 and (tid % 2):
-                    dt = fit_dtype(mx)          # default minval
+                    dt = fit_dtype(amx)          # default minval
                 else:
-                    dt = fit_dtype(mx, mn)
+                    dt = fit_dtype(amx, amn)
                 name, exc = numpy.dtype(dt).name, False
             except Exception as e:  # noqa
                 name, exc = type(e).__name__, True
@@ -136,7 +146,8 @@ def run(chk, tier):
     wd = core.workdir("c19")
     try:
         classes = [1, 255, 256, 65535, 65536, 2 ** 32 - 1, 2 ** 32, 2 ** 63 - 1]
-        for cmax in classes:
+        # coordinates in [2^63, 2^64) are unsigned 64-bit values too (next to a small one NumPy's maximum of them is a float)
+        for cmax in classes + [2 ** 63, 2 ** 63 + 2 ** 40]:
             for common in classes:
                 for nent in (0, 1, 2):
                     entries = {(cmax if j == 0 else 1, j): numpy.array([j], dtype=numpy.uint32) for j in range(nent)}
